@@ -102,6 +102,23 @@ Theorem C04_uniq_then_single_char_no_dup : forall ts fs,
 Proof. exact uniq_single_no_dup. Qed.
 Print Assumptions C04_uniq_then_single_char_no_dup.
 
+(** The simplifier enters as an oracle: each filter instance carries its own
+    function [conv] from a candidate to the non-empty list of candidates it is
+    replaced by (None = left as it is); nothing is assumed of it (a Gallina
+    function is deterministic).  All theorems above quantify over every menu and
+    therefore hold for chains containing simplifiers.  The luna_pinyin chain
+    (simplifier@zh_simp, simplifier@zh_tw, uniquifier): *)
+Theorem C04_luna_pinyin_chain_no_dup : forall ts zh_simp zh_tw,
+  NoDup (texts (full_list (build_menu ts [FSimplifier zh_simp; FSimplifier zh_tw; FUniquifier]))).
+Proof. intros ts f g. exact (uniq_no_dup ts [FSimplifier f; FSimplifier g]). Qed.
+Print Assumptions C04_luna_pinyin_chain_no_dup.
+
+(** ... and cangjie5's (simplifier, uniquifier, single_char_filter) *)
+Theorem C04_cangjie5_chain_no_dup : forall ts simp,
+  NoDup (texts (full_list (build_menu ts [FSimplifier simp; FUniquifier; FSingleChar]))).
+Proof. intros ts f. exact (uniq_single_no_dup ts [FSimplifier f]). Qed.
+Print Assumptions C04_cangjie5_chain_no_dup.
+
 (** The general claim (any chain of the modelled filters that contains the
     uniquifier) is kept as a statement only: it is proved above for the two
     orders that occur in the stock schemas ([...; uniquifier] and
@@ -153,3 +170,10 @@ Theorem C04_example_uniq_then_prefetch :
   = [([0x4E00%N], 1%N, 0)].
 Proof. exact uniq_then_prefetch_example. Qed.
 Print Assumptions C04_example_uniq_then_prefetch.
+
+(** a concrete luna_pinyin-like chain: one-to-many and duplicate-creating conversions, merged by the uniquifier *)
+Theorem C04_example_simplifier_chain :
+  map (fun c => (c_text c, c_comment c, c_uniq c)) (full_list ex_simp_menu) =
+  [([0x4E01%N], 1%N, 3); ([0x4E8C%N], 2%N, 0); ([66%N; 0x4E01%N], 1%N, 1)].
+Proof. exact ex_simp_list. Qed.
+Print Assumptions C04_example_simplifier_chain.
